@@ -13,24 +13,26 @@
 (* harness concretises to the column type's MIN / MAX.                     *)
 (*                                                                         *)
 (* Contract at pc = "done": RowCountExact, NullCountExactWhenPresent,      *)
-(* MinMaxBound.  Impl = "fixed" meets it on ALL tables; Impl = "asbuilt"   *)
+(* MinMaxBound.  impl = "fixed" meets it on ALL tables; impl = "asbuilt"   *)
 (* (the real code) meets it only when AllowPartial = FALSE keeps tables    *)
 (* out whose column has min/max in some chunks and no statistics in others *)
 (* that hold values; with AllowPartial = TRUE TLC finds the counterexample *)
-(* to MinMaxBound (known finding C18/minmax-partial-stats).                *)
+(* to MinMaxBound (known finding C18/minmax-partial-stats).  The mutant    *)
+(* folds are each rejected by an invariant (PqStats_kill.cfg, run with     *)
+(* -continue: every (impl, invariant) rejection is reported).              *)
 (*                                                                         *)
 (* Exhaustive but stratified: a stratum = [layout (row groups per file),   *)
 (* dom (value tokens), maxv (rows per row group 0..maxv)].                 *)
 (***************************************************************************)
 EXTENDS PqStatsOps
 
-CONSTANTS Impl,          \* "fixed" | "asbuilt" | a mutant
+CONSTANTS Impls,         \* the folds explored: "fixed" | "asbuilt" | the mutants of the kill matrix
           AllowPartial,  \* FALSE: tables of the known-finding shape are not reported
           DoEmit,        \* TRUE: every finished table is emitted for the replay on the real code
           Strata
 
-VARIABLES st, files, flags, foot, pc, rep, cache
-vars == <<st, files, flags, foot, pc, rep, cache>>
+VARIABLES st, impl, files, flags, foot, pc, rep, cache
+vars == <<st, impl, files, flags, foot, pc, rep, cache>>
 
 LO == -9
 HI == 9
@@ -38,14 +40,14 @@ Full == {NULL, -2, 0, 1, 5, LO, HI}
 S(l, d, m) == [layout |-> l, dom |-> d, maxv |-> m]
 
 StrataQuick == {S(<<1>>, Full, 3), S(<<2>>, Full, 2), S(<<1, 1>>, Full, 2),
-                S(<<2, 1>>, {NULL, 0, 5, HI}, 2), S(<<1, 2>>, {NULL, 0, 5, HI}, 2),
+                S(<<2, 1>>, {NULL, 0, HI}, 2), S(<<1, 2>>, {NULL, 5, LO}, 2),
                 S(<<2, 2>>, {NULL, 0, 5, HI}, 1)}
 StrataThorough == {S(<<1>>, Full, 3), S(<<2>>, Full, 3), S(<<1, 1>>, Full, 3),
                    S(<<2, 1>>, {NULL, -2, 0, 5, LO, HI}, 2), S(<<1, 2>>, {NULL, -2, 0, 5, LO, HI}, 2),
                    S(<<2, 2>>, {NULL, 0, 5, HI}, 2)}
 \* small universe for the expected counterexample and the kill matrix
-StrataSmall == {S(<<1>>, {NULL, 0, 5}, 2), S(<<2>>, {NULL, 0, 5}, 2), S(<<1, 1>>, {NULL, 0, 5, HI}, 2),
-                S(<<2, 1>>, {NULL, 0, 5}, 1)}
+StrataSmall == {S(<<1>>, {NULL, 0, 5}, 2), S(<<2>>, {NULL, 0, 5}, 1), S(<<1, 1>>, {NULL, 0, HI}, 1),
+                S(<<2, 1>>, {NULL, 5}, 1)}
 
 \* every bag of at most k rows once, as an ascending sequence
 Bags(D, k) == UNION {{s \in [1..n -> D] : \A i \in 1..(n - 1) : s[i] <= s[i + 1]} : n \in 0..k}
@@ -53,7 +55,7 @@ Bags(D, k) == UNION {{s \in [1..n -> D] : \A i \in 1..(n - 1) : s[i] <= s[i + 1]
 \* the table whose statistics a careless cache would hand out again
 PrevFoot == <<<<Footer(<<1, 5>>, 1)>>>>
 
-Init == /\ \E s \in Strata : st = s
+Init == /\ \E s \in Strata, i \in Impls : st = s /\ impl = i
         /\ files = <<>> /\ flags = <<>> /\ foot = <<>>
         /\ pc = "build" /\ rep = NoRep
         /\ cache = Fold("fixed", Chunks(PrevFoot), NoRep)
@@ -66,19 +68,19 @@ OpenFile == /\ pc = "build" /\ nf < Len(st.layout)
             /\ \E fl \in {0, 1} : flags' = Append(flags, fl)
             /\ files' = Append(files, <<>>)
             /\ foot' = Append(foot, <<>>)
-            /\ UNCHANGED <<st, pc, rep, cache>>
+            /\ UNCHANGED <<st, impl, pc, rep, cache>>
 
 WriteRowGroup == /\ pc = "build" /\ nf > 0 /\ Len(files[nf]) < st.layout[nf]
                  /\ \E b \in Bags(st.dom, st.maxv) :
                        /\ files' = [files EXCEPT ![nf] = Append(@, b)]
                        /\ foot' = [foot EXCEPT ![nf] = Append(@, Footer(b, flags[nf]))]
-                 /\ UNCHANGED <<st, flags, pc, rep, cache>>
+                 /\ UNCHANGED <<st, impl, flags, pc, rep, cache>>
 
 Report == /\ pc = "build" /\ nf > 0 /\ Complete
           /\ (IF AllowPartial THEN TRUE ELSE ~Partial(Chunks(foot)))
-          /\ rep' = Fold(Impl, Chunks(foot), cache)
+          /\ rep' = Fold(impl, Chunks(foot), cache)
           /\ pc' = "done"
-          /\ UNCHANGED <<st, files, flags, foot, cache>>
+          /\ UNCHANGED <<st, impl, files, flags, foot, cache>>
 
 Next == OpenFile \/ WriteRowGroup \/ Report
 
@@ -103,7 +105,7 @@ FixedIsAsBuiltOffShape ==
      /\ (Partial(ch) => Fold("fixed", ch, cache).has_mm = 0 /\ Fold("asbuilt", ch, cache).has_mm = 1)
 \* the repaired fold is not trivially silent: with statistics everywhere the bound is reported and tight
 FixedIsTight ==
-  (pc = "done" /\ Impl = "fixed" /\ \A i \in DOMAIN flags : flags[i] = 1) =>
+  (pc = "done" /\ impl = "fixed" /\ \A i \in DOMAIN flags : flags[i] = 1) =>
      LET v == NonNull(FlatVals(files)) IN
        /\ rep.has_nulls = 1
        /\ rep.has_mm = (IF Len(v) > 0 THEN 1 ELSE 0)
@@ -112,6 +114,6 @@ FixedIsTight ==
 Emit == (DoEmit /\ pc = "done") =>
           LET ch == Chunks(foot) IN
           EmitCase([layout |-> st.layout, files |-> files, flags |-> flags, foot |-> foot,
-                    partial |-> IF Partial(ch) THEN 1 ELSE 0,
+                    impl |-> impl, partial |-> IF Partial(ch) THEN 1 ELSE 0,
                     fixed |-> Fold("fixed", ch, cache), asbuilt |-> Fold("asbuilt", ch, cache)])
 ====
